@@ -339,6 +339,28 @@ root_s = st.one_of(tree_s, tree_s, tree_s,
 cases = st.builds(lambda t, a: {"tree": t, "assign": a}, root_s, st.lists(st.integers(0, 2 ** 30), min_size=1, max_size=3))
 
 
+def _fill_build(u):
+    """One operator on one or two leaves: operand values uniform in +-360 deg, operator, operand classes, multiplier / modulus /
+    rounding digits from the coordinates of a low-discrepancy point (check_tree also evaluates the five homogeneous class assignments)."""
+    a, b = -360.0 + 720.0 * u[0], -360.0 + 720.0 * u[1]
+    op, r = S.u_pick(u[2], ["add", "add", "sub", "sub", "mul", "rmul", "div", "mod", "neg", "abs", "round"])
+    c1, r = S.u_pick(r, CLS)
+    c2, r = S.u_pick(r, CLS)
+    la, lb = {"op": "leaf", "cls": c1, "v": a}, {"op": "leaf", "cls": c2, "v": b}
+    k = (0.01 + 2.99 * u[3]) * (1 if r < 0.5 else -1)
+    if op in ("add", "sub"):
+        t = {"op": op, "l": la, "r": lb}
+    elif op in ("mul", "rmul", "div"):
+        t = {"op": op, "a": la, "k": k, "knum": "float"}
+    elif op == "mod":
+        t = {"op": "mod", "a": dict(la, cls=("dms" if r < 0.5 else "ddm")), "m": 0.1 + 359.9 * u[3], "knum": "float"}
+    elif op == "round":
+        t = {"op": "round", "a": la, "n": min(int(u[3] * 10), 9)}
+    else:
+        t = {"op": op, "a": la}
+    return {"tree": t, "assign": [int(u[3] * 2 ** 30)]}
+
+
 def _leaves(node, acc):
     if node["op"] == "leaf":
         acc.append(node)
@@ -383,4 +405,8 @@ SUBCHECKS = [
              quick=6000, thorough=600000, shards_quick=6, shards_thorough=16,
              fresh=(8, 64, 3), rule="per node: operator result == operator on .dec() values (1e-8\"), class of the left operand, rounding bound; "
                   "whole tree == float evaluation with propagated tolerance; comparisons at the root"),
+    SubCheck("operator_fill", check_tree, enumerate=S.fill(1212, 4, _fill_build, 40000, 800000), nontrivial=_nt, classes=_classes,
+             shards_quick=12, shards_thorough=16,
+             rule="low-discrepancy fill of (operand, operand) in +-360 deg x operator x operand classes x multiplier / modulus / digits: "
+                  "40 000 / 800 000 single-operator expressions, each also under the five homogeneous class assignments"),
 ]
